@@ -151,7 +151,9 @@ class C25(ByteChanSpec):
             return viol("C25/unexpected-status/%r" % (rc,), "command exited with %r; stderr: %s" % (rc, stderr[-400:]))
         if (rc == 0) != (lib.verdict == "accept"):
             return viol("C25/verdict-mismatch", "command exited with %r but the library validator says %s" % (rc, lname))
-        if "hist" in case and not case["faults"]:
+        if "hist" in case and not case["faults"] and all(u.get("lvl", 0) == 0 for u in case["hist"]["units"]):
+            # (level 0 only: the reference model knows the levels' ordering
+            # rules, not their value constraints, which are real here)
             # for un-faulted data-unit histories the reference model of C01 says
             # whether the stream is conformant: exit 0 exactly when it is
             from sim import unitchan as U
